@@ -308,3 +308,243 @@ def returns_under(ft, assume):
 def is_variant(t, name):
     """aggregate construction of enum variant `name` (e.g. 'Ok', 'Err', 'Some')"""
     return t[0] == "agg" and t[1] == "adt" and t[2].endswith("::" + name)
+
+
+# ---------------------------------------------------------------------- inlining of trivial local calls
+
+def _simple_summary(facts, path):
+    from .terms import fn_terms as _ft
+    f = facts.fns.get(path)
+    if f is None or f["kind"] not in ("Fn", "AssocFn"):
+        return None
+    ft = _ft(facts, path)
+    rbs = ft.return_blocks()
+    if len(rbs) != 1:
+        return None
+    rt = ft.return_term(rbs[0])
+    for x in walk(rt):
+        if x[0] in ("phi", "unknown", "escaped", "uninit"):
+            return None
+    return rt
+
+
+_sum_cache = {}
+
+
+def inline_calls(facts, t, depth=8, memo=None, stop=()):
+    """replace calls to local functions that are a single straight-line expression of their
+    parameters by that expression (accessors, constructors, unit conversions, thin wrappers)"""
+    from .terms import subst_params, mk_deref, mk_field
+    if memo is None:
+        memo = {}
+    if not isinstance(t, tuple) or not t:
+        return t
+    if not isinstance(t[0], str):
+        return tuple(inline_calls(facts, x, depth, memo, stop) for x in t)
+    if t in memo:
+        return memo[t]
+    tag = t[0]
+    if tag in ("const", "param", "phi", "static", "tls", "fnref", "promoted", "unknown", "escaped", "uninit"):
+        r = t
+    elif tag == "call":
+        args = tuple(inline_calls(facts, a, depth, memo, stop) for a in t[2])
+        r = ("call", t[1], args, t[3])
+        if depth > 0 and isinstance(t[1], str) and t[1] in facts.fns and t[1] not in stop:
+            key = (id(facts), t[1])
+            if key not in _sum_cache:
+                _sum_cache[key] = _simple_summary(facts, t[1])
+            sm = _sum_cache[key]
+            if sm is not None:
+                r = subst_params(sm, {i + 1: a for i, a in enumerate(args)})
+                r = inline_calls(facts, r, depth - 1, memo, stop)
+    elif tag == "deref":
+        r = mk_deref(inline_calls(facts, t[1], depth, memo, stop))
+    elif tag == "field":
+        r = mk_field(inline_calls(facts, t[1], depth, memo, stop), t[2], t[2] if isinstance(t[2], int) else None)
+    elif tag == "ref":
+        r = ("ref", t[1], inline_calls(facts, t[2], depth, memo, stop), t[3])
+    else:
+        r = tuple(inline_calls(facts, x, depth, memo, stop) if isinstance(x, tuple) else x for x in t)
+    memo[t] = r
+    return r
+
+
+# ---------------------------------------------------------------------- float affine forms
+
+def fconst(t):
+    """value of a constant float expression (single IEEE operations on compiler-evaluated constants)"""
+    from .terms import const_float
+    v = const_float(t)
+    if v is not None:
+        return v
+    if is_const(t) and t[1] == "int":
+        return None
+    if t[0] == "bin" and t[1] in ("Add", "Sub", "Mul", "Div"):
+        a, b = fconst(t[2]), fconst(t[3])
+        if a is None or b is None:
+            return None
+        try:
+            return {"Add": a + b, "Sub": a - b, "Mul": a * b, "Div": a / b}[t[1]]
+        except ZeroDivisionError:
+            return None
+    if t[0] == "un" and t[1] == "Neg":
+        a = fconst(t[2])
+        return None if a is None else -a
+    return None
+
+
+def faffine(t, is_var):
+    """t == a*v + b over floats for the unique sub-term v with is_var(v); returns (a, b, v) or None.
+    Pure constants give (0, value, None)."""
+    c = fconst(t)
+    if c is not None:
+        return (0.0, c, None)
+    if is_var(t):
+        return (1.0, 0.0, t)
+    if t[0] == "bin":
+        op = t[1]
+        if op in ("Add", "Sub"):
+            x, y = faffine(t[2], is_var), faffine(t[3], is_var)
+            if x is None or y is None:
+                return None
+            if x[2] is not None and y[2] is not None and strip_site(x[2]) != strip_site(y[2]):
+                return None
+            s = 1.0 if op == "Add" else -1.0
+            return (x[0] + s * y[0], x[1] + s * y[1], x[2] if x[2] is not None else y[2])
+        if op == "Mul":
+            x, y = faffine(t[2], is_var), faffine(t[3], is_var)
+            if x is None or y is None:
+                return None
+            if x[2] is None:
+                return (x[1] * y[0], x[1] * y[1], y[2])
+            if y[2] is None:
+                return (y[1] * x[0], y[1] * x[1], x[2])
+            return None
+        if op == "Div":
+            x, y = faffine(t[2], is_var), faffine(t[3], is_var)
+            if x is None or y is None or y[2] is not None or y[1] == 0:
+                return None
+            return (x[0] / y[1], x[1] / y[1], x[2])
+    if t[0] == "un" and t[1] == "Neg":
+        x = faffine(t[2], is_var)
+        return None if x is None else (-x[0], -x[1], x[2])
+    return None
+
+
+# ---------------------------------------------------------------------- finite-domain evaluation of integer terms
+
+INT_BITS = {"u8": (8, False), "u16": (16, False), "u32": (32, False), "u64": (64, False), "usize": (64, False), "u128": (128, False),
+            "i8": (8, True), "i16": (16, True), "i32": (32, True), "i64": (64, True), "isize": (64, True), "i128": (128, True)}
+
+
+def wrap(v, ty):
+    if ty == "bool":
+        return int(bool(v))
+    if ty not in INT_BITS:
+        return v
+    bits, signed = INT_BITS[ty]
+    v &= (1 << bits) - 1
+    if signed and v >> (bits - 1):
+        v -= 1 << bits
+    return v
+
+
+class Undetermined(Exception):
+    pass
+
+
+def ieval(ft, t, env, assume=None):
+    """Value of an integer/bool term when every atom is given by `env` ({stripped term: int}).
+    Small-set abstract evaluation of a MIR-derived formula over a finite domain; raises
+    Undetermined when an atom is missing.  Rust semantics: truncating Div/Rem, wrapping casts;
+    arithmetic is exact (overflow is the business of the C14 obligations)."""
+    assume = assume if assume is not None else env
+    key = strip_site(t)
+    if key in env:
+        return env[key]
+    tag = t[0]
+    if tag == "const":
+        v = const_int(t)
+        if v is None:
+            raise Undetermined(fmt_short(t))
+        return v
+    if tag == "bin":
+        op = t[1]
+        a = ieval(ft, t[2], env, assume)
+        b = ieval(ft, t[3], env, assume)
+        if op in ("Add", "AddUnchecked", "AddWithOverflow"):
+            return a + b
+        if op in ("Sub", "SubUnchecked", "SubWithOverflow"):
+            return a - b
+        if op in ("Mul", "MulUnchecked", "MulWithOverflow"):
+            return a * b
+        if op in ("Div", "Rem"):
+            if b == 0:
+                raise Undetermined("division by zero")
+            q = abs(a) // abs(b)
+            if (a < 0) != (b < 0):
+                q = -q
+            return q if op == "Div" else a - q * b
+        if op in CMP:
+            return int(CMP[op](a, b))
+        if op in ("Shl", "ShlUnchecked"):
+            return a << b
+        if op in ("Shr", "ShrUnchecked"):
+            return a >> b
+        if op == "BitAnd":
+            return a & b
+        if op == "BitOr":
+            return a | b
+        if op == "BitXor":
+            return a ^ b
+        raise Undetermined(op)
+    if tag == "un":
+        a = ieval(ft, t[2], env, assume)
+        if t[1] == "Neg":
+            return -a
+        if t[1] == "Not":
+            return int(not a) if a in (0, 1) else ~a
+        raise Undetermined(t[1])
+    if tag == "cast" and t[1] == "IntToInt":
+        return wrap(ieval(ft, t[2], env, assume), t[3])
+    if tag == "phi":
+        r = resolve_under(ft, t, assume)
+        if r is None:
+            # try to fold controlling comparisons by evaluation
+            r = _resolve_by_eval(ft, t, env, assume)
+        if r is None:
+            raise Undetermined("phi")
+        return ieval(ft, r, env, assume)
+    raise Undetermined(tag)
+
+
+def _resolve_by_eval(ft, phi, env, assume):
+    """resolve a phi by evaluating the switch conditions on the way with ieval"""
+    extra = dict(assume)
+    changed = False
+    for b in sorted(ft.cfg.reach):
+        tm = ft.blocks[b]["term"]
+        if tm["k"] != "switch":
+            continue
+        d = ft.switch_term(b)
+        k = strip_site(d)
+        if k in extra:
+            continue
+        try:
+            if d[0] == "phi" and d == phi:
+                continue
+            extra[k] = ieval(ft, d, env, extra) if d[0] != "phi" else None
+            if extra[k] is None:
+                del extra[k]
+            else:
+                changed = True
+        except Undetermined:
+            pass
+    if not changed:
+        return None
+    return resolve_under(ft, phi, extra)
+
+
+def fmt_short(t):
+    from .terms import fmt
+    return fmt(t)
